@@ -7,8 +7,9 @@ with per-session order, no session panics or deadlocks, and the database reopens
 
 For the code that exists the unrestricted statement is FALSE; the refutations below are
 schedules taken from the real implementation (the check replays them on it):
-`create_create_witness`, `drop_vs_compaction_panic_witness`, `drop_vs_insert_witness`
-(and C09's two witnesses for DELETE vs compaction).  What is proved for every schedule:
+`create_create_witness`, `drop_vs_insert_witness`, `drop_drop_bound_panic_witness`
+(and C09's two witnesses for DELETE vs compaction); `drop_vs_compaction_regression` and
+`drop_dv_vs_compaction_regression` are the regression inputs of two defects fixed in /repo 6efcfe7.  What is proved for every schedule:
 `exactly_once`, `epoch_counts_commits`; and for the restricted fragment {INSERT, SELECT,
 CREATE/DROP of distinct names} the per-statement linearization facts `serializable_partial`
 and `no_panic_partial`.
@@ -130,26 +131,32 @@ theorem serializable_partial {k : K} (h : KInv k) :
 
 /-! ### no_panic_partial -/
 
-theorem applyOps_insert_some (s : Snap) (key : Key) (vs : List Int) :
-    applyOps s [.add key vs] = some { s with rs := key :: s.rs } := rfl
+theorem applyOp_total (s : Snap) (o : Op) : ∃ s', applyOp s o = some s' := by
+  cases o <;> exact ⟨_, rfl⟩
 
-theorem applyOps_dels_some (t n : Nat) : ∀ (dels : List Key) (s : Snap),
-    (∀ d ∈ dels, d.1 = t ∧ d ≠ (t, n)) → (t, n) ∈ s.rs →
-    (applyOps s (dels.map Op.del)).isSome = true
-  | [], _, _, _ => rfl
-  | d :: r, s, hd, hm => by
-      simp only [List.map_cons, applyOps, applyOp]
-      have h1 := hd d List.mem_cons_self
-      have hany : (s.rs.any fun x => x.1 == d.1) = true := by
-        apply List.any_eq_true.mpr
-        exact ⟨(t, n), hm, by simp [h1.1]⟩
-      simp only [hany, if_true]
-      apply applyOps_dels_some t n r
-      · intro x hx; exact hd x (List.mem_cons_of_mem _ hx)
-      · apply List.mem_filter.mpr
-        refine ⟨hm, ?_⟩
-        simp only [bne_iff_ne, ne_eq]
-        exact fun hh => h1.2 hh.symm
+/-- Since /repo 6efcfe7 (`Snapshot::delete_rowset` / `delete_dv` tolerate a missing entry) phase A
+of a commit succeeds on EVERY changeset over EVERY snapshot — whatever a concurrent DROP TABLE or
+compaction removed in the meantime. -/
+theorem applyOps_total : ∀ (ops : List Op) (s : Snap), (applyOps s ops).isSome = true
+  | [], _ => rfl
+  | o :: r, s => by
+      obtain ⟨s1, h1⟩ := applyOp_total s o
+      simp only [applyOps, h1]
+      exact applyOps_total r s1
+
+/-- ... so the panicking variant of phase A is never enabled. -/
+theorem commitA_never_panics (k : K) (th : Tid) (ops : List Op) : kCommitAPanic k th ops = none := by
+  simp only [kCommitAPanic]
+  split
+  · rfl
+  split
+  · rfl
+  split
+  · rfl
+  · rename_i hn
+    have := applyOps_total ops (k.status k.epoch)
+    rw [hn] at this
+    cases this
 
 theorem dvDels_nil {sp : Snap} (h : sp.dvs = []) (sel : List Key) : dvDels sp sel = [] := by
   simp only [dvDels, h, List.filter_nil, List.map_nil]
@@ -157,33 +164,20 @@ theorem dvDels_nil {sp : Snap} (h : sp.dvs = []) (sel : List Key) : dvDels sp se
   | nil => rfl
   | cons _ r ih => simpa using ih
 
-/-- The changeset of a compaction with a non-empty output in the fragment (no DELETE statement,
-so the pinned snapshot `sp` carries no delete vectors and no `DeleteDV` is emitted):
-`AddRowSet` of the table first, then `DeleteRowSet`s of the same table.  It never hits the
-`unwrap` in `Snapshot::delete_rowset`, whatever the current snapshot is (in particular after a
-concurrent DROP). -/
-theorem applyOps_compaction_some (s sp : Snap) (hsp : sp.dvs = []) (t n : Nat) (rows : List Int)
-    (dels : List Key) (hd : ∀ d ∈ dels, d.1 = t ∧ d ≠ (t, n)) :
-    (applyOps s (.add (t, n) rows :: (dels.map Op.del ++ dvDels sp dels))).isSome = true := by
-  rw [dvDels_nil hsp, List.append_nil]
-  simp only [applyOps, applyOp]
-  exact applyOps_dels_some t n dels _ hd List.mem_cons_self
-
-/-- The modelled `assert!` / `unwrap` sites, for the restricted fragment: the epoch-continuity
-assert of phase B and `get_rowset(..).unwrap()` on a pinned snapshot are unreachable in every
-schedule; the changesets the fragment produces (insert; compaction with non-empty output — no
-DELETE means no empty output) pass phase A without panicking. -/
+/-- The modelled `assert!` / `unwrap` sites of the storage engine are unreachable in EVERY
+schedule (no restriction any more since /repo 6efcfe7): the epoch-continuity assert of phase B,
+`get_rowset(..).unwrap()` on a pinned snapshot, and the `unwrap`s of `Snapshot::delete_rowset` /
+`delete_dv` in phase A.  (Kept under its old name; what is still restricted is the panic in
+`executor::Builder::new`, see `no_panic_unrestricted_false`.) -/
 theorem no_panic_partial {s : Sys} (h : Inv s) :
     (∀ th f, s.k.infl = some (th, f) → f.base = s.k.epoch)
     ∧ (∀ p ∈ s.k.pins, ∀ t, ∃ rows, rowsAt? s.k.pool (s.k.status p.2) t = some rows)
-    ∧ (∀ snap key vs, (applyOps snap [.add key vs]).isSome = true)
-    ∧ (∀ (snap sp : Snap) (t n : Nat) (rows : List Int) (dels : List Key), sp.dvs = [] →
-        (∀ d ∈ dels, d.1 = t ∧ d ≠ (t, n)) →
-        (applyOps snap (.add (t, n) rows :: (dels.map Op.del ++ dvDels sp dels))).isSome = true) :=
+    ∧ (∀ (snap : Snap) (ops : List Op), (applyOps snap ops).isSome = true)
+    ∧ (∀ th ops, kCommitAPanic s.k th ops = none) :=
   ⟨fun _ _ hi => assert_epoch_unreachable h hi,
    fun _ hp t => (no_missing_file h hp t).1,
-   fun _ _ _ => rfl,
-   fun snap sp t n rows dels hsp hd => applyOps_compaction_some snap sp hsp t n rows dels hd⟩
+   fun snap ops => applyOps_total ops snap,
+   fun th ops => commitA_never_panics s.k th ops⟩
 
 /-! ### what the restriction excludes: schedules of the real implementation -/
 
@@ -197,8 +191,10 @@ def createCreateSchedule : List Act :=
    .commitA (1,1), .append (1,1), .committed (1,1), .createApplied (1,1), .cmdDone (1,0),
    .commitBegin (2,1), .commitA (2,1), .append (2,1), .committed (2,1), .cmdDone (2,0)]
 
-/-- `DROP TABLE t1` commits while the compactor (all rows of t1 deleted: empty output, only
-DeleteRowSet ops) is between selecting its inputs and committing. -/
+/-- REGRESSION INPUT (was `sched:drop-vs-compaction-empty-output-panic`, fixed in /repo 6efcfe7):
+`DROP TABLE t1` commits while the compactor (all rows of t1 deleted: empty output, only
+DeleteRowSet / DeleteDV ops) is between selecting its inputs and committing.  Trace of the fixed
+implementation. -/
 def dropVsCompactionSchedule : List Act :=
   [.cmdBegin (0,0) (.create 1), .bound (0,0), .commitBegin (0,1), .commitA (0,1), .append (0,1),
    .committed (0,1), .createApplied (0,1), .cmdDone (0,0), .cmdBegin (0,0) (.insert 1 [1, 2]),
@@ -214,7 +210,8 @@ def dropVsCompactionSchedule : List Act :=
    .cmdBegin (2,0) (.drop 1), .pin (1,0), .cpPinned (1,0), .cpTable (1,0) 0, .cpLocked (1,0) 0,
    .commitBegin (1,0), .pin (2,0), .txnPinned (2,0) .ro 0, .unpin (2,0) 5, .bound (2,0),
    .dropApplied (2,1), .pin (2,1), .commitBegin (2,1), .commitA (2,1), .append (2,1),
-   .committed (2,1), .unpin (2,1) 5, .cmdDone (2,0), .panic (1,0), .unpin (1,0) 5, .cmdDone (1,0)]
+   .committed (2,1), .unpin (2,1) 5, .cmdDone (2,0), .commitA (1,0), .append (1,0),
+   .committed (1,0), .cpEnd (1,0), .unpin (1,0) 5, .cmdDone (1,0)]
 
 /-- `INSERT INTO t1` has pinned and written its row-set; `DROP TABLE t1` commits; the INSERT
 commits afterwards. -/
@@ -250,10 +247,13 @@ theorem create_create_witness :
 def panicked (acts : List Act) : Bool :=
   (stateOf acts).outs.any (fun o => match o.2.2 with | .panic => true | _ => false)
 
-/-- The compactor's phase A runs `Snapshot::delete_rowset` on a table entry that the DROP
-removed: `unwrap` on `None`. -/
-theorem drop_vs_compaction_panic_witness :
-    (run init dropVsCompactionSchedule).isSome = true ∧ panicked dropVsCompactionSchedule = true := by
+/-- The compaction's phase A now treats the `DeleteRowSet`s of the dropped table as no-ops: no
+panic, both commands acknowledged, nothing of the table left in the snapshot. -/
+theorem drop_vs_compaction_regression :
+    (run init dropVsCompactionSchedule).isSome = true ∧ panicked dropVsCompactionSchedule = false
+    ∧ (stateOf dropVsCompactionSchedule).tables = []
+    ∧ ((stateOf dropVsCompactionSchedule).k.status (stateOf dropVsCompactionSchedule).k.epoch).rs = []
+    ∧ (resultsOf dropVsCompactionSchedule).filter (fun r => r.1 != 0) = [(2, true), (1, true)] := by
   decide
 
 /-- The INSERT is acknowledged after the DROP: its row-set is in the current snapshot (and in
@@ -265,9 +265,11 @@ theorem drop_vs_insert_witness :
     ∧ (resultsOf dropVsInsertSchedule).filter (fun r => r.1 != 0) = [(2, true), (1, true)] := by
   decide
 
-/-- `DROP TABLE t1` pinned a snapshot in which row-set 0_0 carries a delete vector and built its
+/-- REGRESSION INPUT (was `sched:drop-vs-compaction-delete-dv-panic`, fixed in /repo 6efcfe7):
+`DROP TABLE t1` pinned a snapshot in which row-set 0_0 carries a delete vector and built its
 changeset (`DeleteDV 0_0 dv0`) from it; a compaction pass that had started before commits in
-between and (since /repo 5071ff5) deletes that delete vector together with the row-sets. -/
+between and deletes that delete vector together with the row-sets.  Trace of the fixed
+implementation. -/
 def dropDvVsCompactionSchedule : List Act :=
   [.cmdBegin (0,0) (.create 1), .bound (0,0), .commitBegin (0,1), .commitA (0,1), .append (0,1),
    .committed (0,1), .createApplied (0,1), .cmdDone (0,0), .cmdBegin (0,0) (.insert 1 [1, 2]),
@@ -283,28 +285,48 @@ def dropDvVsCompactionSchedule : List Act :=
    .cmdBegin (2,0) .compact, .pin (2,0), .cpPinned (2,0), .pin (1,0), .txnPinned (1,0) .ro 0,
    .unpin (1,0) 5, .bound (1,0), .dropApplied (1,1), .pin (1,1), .commitBegin (1,1),
    .cpTable (2,0) 0, .cpLocked (2,0) 0, .commitBegin (2,0), .commitA (2,0), .append (2,0),
-   .committed (2,0), .cpEnd (2,0), .unpin (2,0) 5, .cmdDone (2,0), .panic (1,1), .unpin (1,1) 5,
-   .cmdDone (1,0)]
+   .committed (2,0), .cpEnd (2,0), .unpin (2,0) 5, .cmdDone (2,0), .commitA (1,1), .append (1,1),
+   .committed (1,1), .unpin (1,1) 5, .cmdDone (1,0)]
 
-/-- Phase A of the DROP's commit unwraps a missing entry in `Snapshot::delete_dv`: the operator
-task panics, the statement returns Ok with no rows, the table is gone from the catalog but no
-DropTable record was written (after reopen the table is back). -/
-theorem drop_dv_vs_compaction_witness :
+/-- The DROP's phase A now treats the `DeleteDV` / `DeleteRowSet` of what the compaction already
+removed as no-ops: no panic, `DROP TABLE` is acknowledged and logged.  What remains is the OTHER
+mechanism (`sched:drop-vs-compaction-orphan-rowset`): the row-set the compaction added after the
+DROP pinned is not in the DROP's changeset and stays in the snapshot of a table that is gone. -/
+theorem drop_dv_vs_compaction_regression :
     (run init dropDvVsCompactionSchedule).isSome = true
+    ∧ panicked dropDvVsCompactionSchedule = false
     ∧ (stateOf dropDvVsCompactionSchedule).tables = []
     ∧ (((stateOf dropDvVsCompactionSchedule).k.log.flatMap id).filter (fun o => match o with
         | .drop _ => true
-        | _ => false)).length = 0
-    ∧ (stateOf dropDvVsCompactionSchedule).outs.getLast?.map (fun o => match o.2.2 with
-        | .rows xs => xs.length
-        | _ => 99) = some 0 := by
+        | _ => false)).length = 1
+    ∧ ((stateOf dropDvVsCompactionSchedule).k.status (stateOf dropDvVsCompactionSchedule).k.epoch).rs
+        = [(0, 2)] := by
+  decide
+
+/-- Two sessions `DROP TABLE t1`: both bound before either applies; the second one's executors
+are built for a table that is gone. -/
+def dropDropSchedule : List Act :=
+  [.cmdBegin (0,0) (.create 1), .bound (0,0), .commitBegin (0,1), .commitA (0,1), .append (0,1),
+   .committed (0,1), .createApplied (0,1), .cmdDone (0,0), .cmdBegin (0,0) (.insert 1 [1]),
+   .pin (0,0), .txnPinned (0,0) .ro 0, .unpin (0,0) 2, .bound (0,0), .pin (0,2),
+   .txnPinned (0,2) .rw 0, .commitBegin (0,2), .commitA (0,2), .append (0,2), .committed (0,2),
+   .unpin (0,2) 2, .cmdDone (0,0), .cmdBegin (1,0) (.drop 1), .cmdBegin (2,0) (.drop 1),
+   .pin (1,0), .txnPinned (1,0) .ro 0, .unpin (1,0) 3, .bound (1,0), .pin (2,0),
+   .txnPinned (2,0) .ro 0, .unpin (2,0) 3, .bound (2,0), .dropApplied (1,1), .pin (1,1),
+   .commitBegin (1,1), .commitA (1,1), .append (1,1), .committed (1,1), .unpin (1,1) 3,
+   .cmdDone (1,0), .panic (2,0), .cmdDone (2,0)]
+
+/-- `executor::Builder::new` unwraps the catalog entry of a table that a concurrent session
+dropped after this statement was bound: the session panics. -/
+theorem drop_drop_bound_panic_witness :
+    (run init dropDropSchedule).isSome = true ∧ panicked dropDropSchedule = true := by
   decide
 
 /-- "No session or background pass panics" is false without the restriction. -/
 theorem no_panic_unrestricted_false :
     ¬ (∀ acts : List Act, (run init acts).isSome = true → panicked acts = false) := by
   intro h
-  exact absurd (h dropVsCompactionSchedule (by decide)) (by decide)
+  exact absurd (h dropDropSchedule (by decide)) (by decide)
 
 /-! ### whole-run serializability of the restricted fragment
 
